@@ -40,6 +40,7 @@ type FuncContract struct {
 	Pure     bool // heap independent, deterministic: gets a function symbol
 	Inline   bool
 	Loops    map[int]*LoopSpec
+	NoPanicKinds map[string]bool // only these kinds of implicit run-time checks are obligations (e.g. type-assert)
 	InlineHere []string           // callees (substring of their key) inlined into this function whatever their own contract says
 	InlLoops map[string]*LoopSpec // loops of inlined callees: key "<callee-substring>[#<call-site ordinal>]:<loop ordinal>"
 	Asserts  map[string][]Clause // keyed by program point label
@@ -270,6 +271,13 @@ func (db *ContractDB) loadContractFile(path, pkgPath string) error {
 				return fail("%v", err)
 			}
 			cur.Decr = sx
+		case "nopanic-kinds":
+			if cur.NoPanicKinds == nil {
+				cur.NoPanicKinds = map[string]bool{}
+			}
+			for _, k := range strings.Fields(rest) {
+				cur.NoPanicKinds[k] = true
+			}
 		case "inline-here":
 			cur.InlineHere = append(cur.InlineHere, strings.Fields(rest)...)
 		case "loop":
